@@ -176,6 +176,7 @@ def run(ctx):
                     meta.append((rep, rc, created))
     # ---------------- S: re-run, edit/regenerate, strace, kill ----------------
     s_rerun(ctx, cli, work)
+    s_rerun_sizes(ctx, cli, work)
     s_edit_sequences(ctx, cli, work, rng)
     s_strace(ctx, cli, work)
     s_readonly_update(ctx, cli, work)
@@ -236,6 +237,53 @@ def s_rerun(ctx, cli, work):
         outs = [p for p in t1 if p.endswith(".ui") or p.endswith(".h")]
         if len(outs) != 2 * len([a for a in args if a.endswith(".qml")]):
             ctx.violation("expected one .ui and one support header per source, found %r" % outs, {"cli_args": args, "impl_output": outs})
+
+
+def s_rerun_sizes(ctx, cli, work):
+    """re-run on unchanged inputs for outputs of every size class: a few hundred bytes, around and at the 4 KiB / 64 KiB / 128 KiB marks (where a buffered or block-wise
+    comparison changes regime), several hundred KiB; for the .ui (one long string) and for the support header (many bindings)"""
+    targets = [4095, 4096, 4097, 65535, 65536, 65537, 70000, 131072, 131073, 300000] if ctx.tier == "thorough" else [4096, 65536, 65537, 131072, 200000]
+    for t in targets:
+        base = os.path.join(work, "size-ui-%d" % t)
+        os.makedirs(base)
+        doc = lambda n: DOC_STATIC % ("x" * n)
+        open(os.path.join(base, "S.qml"), "w").write(doc(10))
+        rc, err = run_cli(cli, base, ["S.qml"])
+        s0 = len(tree(base).get("s.ui", (0, 0, b""))[2])
+        n = 10 + t - s0
+        if rc != 0 or n < 0:
+            continue
+        open(os.path.join(base, "S.qml"), "w").write(doc(n))
+        rc, err = run_cli(cli, base, ["S.qml"])
+        t1 = tree(base)
+        rc2, err2 = run_cli(cli, base, ["S.qml"])
+        t2 = tree(base)
+        ctx.count(("rerun-size", "ui", t), True)
+        ctx.dist("rerun-ui-of-%d-bytes" % len(t1.get("s.ui", (0, 0, b""))[2]))
+        if rc != 0 or rc2 != 0:
+            ctx.violation("generate-ui fails on a valid document with a long string: %s" % (err + err2)[-300:], {"cli_args": ["S.qml"], "ui_size": t, "impl_output": err + err2})
+        elif t1 != t2:
+            diff = [p for p in t2 if t1.get(p) != t2[p]]
+            ctx.violation("re-running on unchanged inputs touched %r (inode/mtime/content); the .ui holds %d bytes" % (diff, len(t1["s.ui"][2])),
+                          {"cli_args": ["S.qml"], "qml": "DOC_STATIC with a string of %d characters" % n, "history": ["generate-ui", "generate-ui"], "impl_output": diff,
+                           "theorem_or_correspondence": "C15_rerun_is_silent / S"})
+    for nb in ([3, 120, 400] if ctx.tier == "thorough" else [150]):
+        base = os.path.join(work, "size-h-%d" % nb)
+        os.makedirs(base)
+        open(os.path.join(base, "H.qml"), "w").write("import qmluic.QtWidgets\nQWidget {\n    QLineEdit { id: e }\n" + "".join("    QLabel { text: e.text + \"%d\" }\n" % i for i in range(nb)) + "}\n")
+        rc, err = run_cli(cli, base, ["H.qml"])
+        t1 = tree(base)
+        rc2, err2 = run_cli(cli, base, ["H.qml"])
+        t2 = tree(base)
+        ctx.count(("rerun-size", "header", nb), True)
+        ctx.dist("rerun-header-of-%d-KiB" % (len(t1.get("uisupport_h.h", (0, 0, b""))[2]) // 1024))
+        if rc != 0 or rc2 != 0:
+            ctx.violation("generate-ui fails on a valid document with %d bindings: %s" % (nb, (err + err2)[-300:]), {"cli_args": ["H.qml"], "impl_output": err + err2})
+        elif t1 != t2:
+            diff = [p for p in t2 if t1.get(p) != t2[p]]
+            ctx.violation("re-running on unchanged inputs touched %r (inode/mtime/content); outputs of %r bytes" % (diff, {p: len(v[2]) for p, v in t1.items()}),
+                          {"cli_args": ["H.qml"], "qml": "%d labels bound to e.text" % nb, "history": ["generate-ui", "generate-ui"], "impl_output": diff,
+                           "theorem_or_correspondence": "C15_rerun_is_silent / S"})
 
 
 def s_edit_sequences(ctx, cli, work, rng):
